@@ -493,6 +493,11 @@ where
                         x.forget();
                         untracked(|| got.push(v));
                         pulled += 1;
+                        // a remainder this long is never legitimate in a case file (sources have at most a few
+                        // thousand elements, except ranges, whose cases never ask for the whole remainder)
+                        if pulled > 1_000_000 {
+                            rt::runaway();
+                        }
                     }
                     None => break,
                 }
